@@ -5,6 +5,8 @@
                         was (as xterm's ECH does); the mock terminal moves it
      flx tl tc          flush through the xterm driver; observation X{payload code points}
      lct                the compiled linemask_to_char table; observation L{hex.hex...}
+     flp tl tc gl gc P pl pc PP T   as fl, but before the flush the (valid, fitting) text T is printed at
+                        (pl,pc) in pen PP, so that the terminal already shows e.g. double-width characters
      tp tl tc gl gc T   print text T on a tl x tc mock terminal (sentinel pattern, cursor (gl,gc),
                         empty pen) through the mock driver's print; observation P{line.col}{grid}.
                         T up to its first NUL is a valid text (that much is printed), or begins
@@ -46,14 +48,26 @@ let braces tok =   (* "K{a}{b}" -> [a; b] *)
 let pen_arg p = if p = "null" then pen_empty else parse_pen p
 
 let () =
-  ext_arity := (function "fl" | "flm" | "tp" -> Some 5 | "flx" -> Some 2 | "lct" -> Some 0 | _ -> None);
+  ext_arity := (function "fl" | "flm" | "tp" -> Some 5 | "flp" -> Some 9 | "flx" -> Some 2 | "lct" -> Some 0 | _ -> None);
+  (* the terminal before the flush *)
+  let term_before kw args =
+    match kw, args with
+    | ("fl" | "flm"), [tl; tc; gl; gc; p] ->
+      t_init (zi (int_of_string tl)) (zi (int_of_string tc)) (zi (int_of_string gl)) (zi (int_of_string gc)) (pen_arg p) (kw = "fl")
+    | "flp", [tl; tc; gl; gc; p; pl; pc; pp; t] ->
+      let t0 = t_init (zi (int_of_string tl)) (zi (int_of_string tc)) (zi (int_of_string gl)) (zi (int_of_string gc)) (pen_arg p) true in
+      (match t_run t0 [TGoto (zi (int_of_string pl), zi (int_of_string pc)); TSetPen (pen_arg pp); TPrint (parse_text t);
+                       TGoto (zi (int_of_string gl), zi (int_of_string gc)); TSetPen (pen_arg p)] with
+       | Ok t1 -> t1
+       | _ -> failwith "prior")
+    | _ -> failwith "term_before" in
   ext_model := (fun bufs cur kw args ->
       match kw, args with
-      | ("fl" | "flm"), [tl; tc; gl; gc; p] ->
+      | ("fl" | "flm" | "flp"), (tl :: tc :: _) ->
+        let t0 = term_before kw args in
         let tl = int_of_string tl and tc = int_of_string tc in
         let (ops, s') = unres (flush bufs.(cur)) in
         bufs.(cur) <- s';
-        let t0 = t_init (zi tl) (zi tc) (zi (int_of_string gl)) (zi (int_of_string gc)) (pen_arg p) (kw = "fl") in
         let log = String.concat "," (List.map (pr_termop tl tc) ops) in
         (match t_run t0 ops with
          | Ok t1 -> [Printf.sprintf "F{%s}{%s}" log (pr_grid t1.tg)]
@@ -85,11 +99,10 @@ let () =
         let ok =
           try
             match kw, args with
-            | ("fl" | "flm"), [tl; tc; gl; gc; p] ->
+            | ("fl" | "flm" | "flp"), _ ->
               (match braces tok with
                | [log; grid] when tok.[0] = 'F' ->
-                 let t0 = t_init (zi (int_of_string tl)) (zi (int_of_string tc)) (zi (int_of_string gl))
-                     (zi (int_of_string gc)) (pen_arg p) (kw = "fl") in
+                 let t0 = term_before kw args in
                  let ops = if log = "" then [] else List.map parse_termop (String.split_on_char ',' log) in
                  flush_checkb sts.(cur) t0 ops (parse_tgrid grid)
                | _ -> false)
